@@ -701,7 +701,7 @@ def run(tier: str, seed: int, replay=None) -> int:
     R.extra["multi_layer_chains_replayed"] = len(mtr2)
     R.extra["multi_layer_chains_skipped"] = mskip
     R.extra["multi_layer_chains_with_equal_widths"] = sum(1 for s_ in msc2 if s_["equal_width"])
-    if mtr2:
+    if mtr2 and "obs" in mtr2[-1]:
         R.sample({"scenario": msc2[-1], "observed": {"ann": mtr2[-1]["obs"].get("ann"), "cb": mtr2[-1]["obs"]["cb"],
                                                      "ca": mtr2[-1]["obs"]["ca"], "ownb": mtr2[-1]["ownb"], "owna": mtr2[-1]["owna"]}})
     R.validate("ReassignTrace", "ReassignTrace", mtr2, msc2, nontrivial=lambda s_: len(s_["ml"]) >= 2,
@@ -739,7 +739,7 @@ def run(tier: str, seed: int, replay=None) -> int:
         msc.append(sc)
     R.extra["models_skipped"] = skipped
     R.extra["models_run"] = len(mtr)
-    if mtr:
+    if mtr and mtr[0].get("k") == "model":
         R.sample({"scenario": msc[0], "observed": {"cb": mtr[0]["cb"], "ca": mtr[0]["ca"],
                                                    "layers": [{k: l[k] for k in ("name", "bits", "before", "after", "bestu")}
                                                               for l in mtr[0]["layers"]]}})
